@@ -1,7 +1,4 @@
 SPECIFICATION Spec
-CONSTANTS
-  MaxEx = 3
-  BugTrailerCRLF = FALSE
-  BugUncompressed = FALSE
-INVARIANTS HeadTerminated SelfDelimitingOrClose NothingAfterClose ExactlyOnce ReportedIsSent
+CONSTANTS MaxEx = 3  SeqSample = 0  BugTrailerCRLF = FALSE  BugUncompressed = FALSE
+INVARIANTS HeadTerminated SelfDelimitingOrClose KthAnswersKth NothingAfterClose ExactlyOnce
 CHECK_DEADLOCK FALSE
